@@ -63,6 +63,7 @@ type Contract struct {
 	Ensures  []Clause
 	BoundReq []Clause
 	CallAssumes []CallAssume
+	CallAsserts []CallAssume // obligations at calls to a callee (arguments a0, a1, ...)
 	Uses       []string // opt-in prelude lemmas (ixshift)
 	Concurrent bool     // second contract of the same function, verified with interference between its calls
 	Interferes []string // ghosts other writers may change between two calls of this function
@@ -242,6 +243,13 @@ func (eng *Engine) loadContractFile(root, path string) error {
 				return fmt.Errorf("%s:%d: assumecall <callee> :: expr", path, ln.n)
 			}
 			cur.CallAssumes = append(cur.CallAssumes, CallAssume{After: kw == "assumeafter", Callee: strings.TrimSpace(rest[:i]), Clause: parseClause(rest[i+2:], path, ln.n)})
+		case "assertcall":
+			// assertcall <callee substring> :: [label:] expr   (obligation at every such call, also in inlined callees)
+			i := strings.Index(rest, "::")
+			if i < 0 {
+				return fmt.Errorf("%s:%d: assertcall <callee> :: expr", path, ln.n)
+			}
+			cur.CallAsserts = append(cur.CallAsserts, CallAssume{Callee: strings.TrimSpace(rest[:i]), Clause: parseClause(rest[i+2:], path, ln.n)})
 		case "inputassumed":
 			// well-formedness of external input (e.g. metadata decoded from disk): assumed for the body, NOT an
 			// obligation at call sites; every use is listed as an assumption
@@ -1361,7 +1369,13 @@ func (e *Env) callExpr(x *ast.CallExpr) TV {
 		// isOpt(v, "withX"): the function value v is a closure made by the option constructor withX of this package
 		v := e.eval(x.Args[0])
 		nm, _ := strconv.Unquote(x.Args[1].(*ast.BasicLit).Value)
-		obj, ok := e.pkg.Scope().Lookup(nm).(*types.Func)
+		scopePkg := e.pkg
+		if i := strings.Index(nm, "."); i > 0 {
+			if p := u.eng.pkgByName(nm[:i], e.pkg); p != nil {
+				scopePkg, nm = p, nm[i+1:]
+			}
+		}
+		obj, ok := scopePkg.Scope().Lookup(nm).(*types.Func)
 		if !ok {
 			specErr("isOpt: no function %s", nm)
 		}
